@@ -526,6 +526,9 @@ def write_evidence(ctx, level, rule, trusted_base, assumptions, checker_cmd, sam
         "violations": len(ctx.violations),
     }
     path = os.path.join(VERIF, "evidence", "%s.json" % ctx.pid)
+    if os.environ.get("VERIF_EXTRA_OVERLAY"):
+        # a run against an edited copy of the sources (lib/try_patch.py) is not evidence about /repo
+        path = os.path.join(ctx.work, "evidence_extra_overlay.json")
     tmp = path + ".tmp"
     json.dump(ev, open(tmp, "w"), indent=1)
     os.replace(tmp, path)
